@@ -15,6 +15,8 @@ text, own allocation count):
   ledger   a successful copy made exactly `allocs` calls, holds exactly that many blocks and cJSON_Delete returns all
   leak     a failed copy holds nothing (live = 0)
   first    a copy fails iff a call it makes is scheduled to fail, and stops at the first such call
+  attach   add_item_to_object appends the item under the new name (constant bit as asked); when the key copy fails nothing
+           has changed and the item is still the caller's (ignoring that result is known finding F60)
   lookup   GetObjectItem finds the first member whose name equals the key under ASCII case folding, else NULL
   memory   no sanitizer report
 A failing clause is a VIOLATION with the failing input; a mere model/code difference is reported with no_input=True
@@ -30,6 +32,7 @@ THEOREMS = {
     "leak": ["duplicate_failure_leaks_nothing"],
     "first": ["duplicate_stops_at_first_failure", "duplicate_succeeds_when_allocations_do"],
     "lookup": ["get_object_item_first_hit", "get_object_item_ci_none_iff"],
+    "attach": ["add_member_attaches_last", "add_member_failure_changes_nothing", "add_member_conserves_blocks"],
     "memory": ["(memory safety: sanitizer)"],
 }
 ALL_THEOREMS = sorted({t for v in THEOREMS.values() for t in v if not t.startswith("(")})
@@ -173,6 +176,26 @@ def judge(op, hl):
                 bad.append("first")
         else:
             bad.append("memory")
+    elif kind == "O":
+        _, fl, ck, key, obj, new = op
+        parts = [x.strip() for x in hl.split("|")]
+        w = parts[0].split()
+        if len(parts) != 3 or not w:
+            return ["memory"]
+        kv = dict(x.split("=") for x in w[1:])
+        must_fail = (not ck) and 0 in fl
+        owned_old = new.name is not None and not new.const
+        if must_fail:
+            # nothing changed, nothing taken, the item is still the caller's
+            if not (w[0] == "FAIL" and parts[1].split() == obj.toks() and parts[2].split() == ["orphan"] + new.toks() and int(kv["live"]) == 1000):
+                bad.append("attach")
+        else:
+            att = Item(new.kind, new.ref, ck, new.vint, new.vdbl, new.vstr, key, new.kids)
+            exp = Item(obj.kind, obj.ref, obj.const, obj.vint, obj.vdbl, obj.vstr, obj.name, obj.kids + [att])
+            if not (w[0] == "ok" and parts[1].split() == exp.toks() and parts[2] == "attached"):
+                bad.append("attach")
+            if int(kv["live"]) != 1000 + (0 if ck else 1) - (1 if owned_old else 0):
+                bad.append("ledger")
     elif kind == "G":
         _, cs, key, it = op
         exp = ref_lookup(cs, key, it.kids)
@@ -186,6 +209,8 @@ def op_line(op):
         return "%s %s %s" % (op[0], ",".join(map(str, op[1])) if op[1] else "-", op[2].text())
     if op[0] == "G":
         return "G %d %s %s" % (int(op[1]), op[2].hex() if op[2] else "-", op[3].text())
+    if op[0] == "O":
+        return "O %s %d %s %s %s" % (",".join(map(str, op[1])) if op[1] else "-", int(op[2]), op[3].hex() if op[3] else "-", op[4].text(), op[5].text())
     return "A %d %s" % (op[1], op[2].text())
 
 
@@ -226,6 +251,13 @@ def run_cjsontree_tie(ctx, out):
         for key in sorted(keys):
             for cs in (False, True):
                 ops.append(("G", cs, key, it))
+        if it.kind == 64 and not it.ref:
+            for _ in range(2):
+                new = rand_item(r, 1, True)
+                key = r.choice(NAMES)
+                for ck in (False, True):
+                    for fl in ((), (0,), (1,)):
+                        ops.append(("O", fl, ck, key, it, new))
         for idx in (-1, 0, len(it.kids) - 1, len(it.kids), len(it.kids) + 1):
             ops.append(("A", idx, it))
     text = "\n".join(op_line(o) for o in ops) + "\n"
